@@ -139,6 +139,7 @@ namespace Pool
 
 ```go
 func (d *refreshDebouncer) refreshNow() <-chan error {            // lock
+    if d.stopped { ch := make(chan error); close(ch); return ch }     // fix: commit for KF-C17-2
     if d.broadcaster == nil { d.broadcaster = newErrorBroadcaster()
         select { case d.refreshNowCh <- struct{}{}: default: } }
     return d.broadcaster.newListener() }
@@ -168,7 +169,8 @@ structure WDeb where
   served : List Nat
   shut : List Nat
   nextW : Nat
-  late : Bool                -- ghost: some refreshNow() ran after the flusher had returned
+  late : Bool                -- ghost: some refreshNow() registered a listener after the flusher had returned
+                             -- (impossible in the code that exists; it is what the code before the fix did)
 deriving DecidableEq, Repr
 
 inductive WAct where
@@ -185,8 +187,9 @@ def WDeb.init : WDeb :=
 
 def ls (o : Option (List Nat)) : List Nat := o.getD []
 
-/-- refreshNow() of the code that exists (`fixed = false`) and of the proposed repair (`fixed = true`: a stopped
-    debouncer hands out a closed channel) -/
+/-- refreshNow() of the code that exists (`fixed = true`: a stopped debouncer hands out a closed channel) and of the
+    code before the fix commit for KF-C17-2 (`fixed = false`: `stopped` is not looked at), kept for the regression
+    theorem `C17_old_refreshNow_strands_waiter` -/
 def wRefreshNow (fixed : Bool) (d : WDeb) : WDeb :=
   if fixed && d.stopped then { d with shut := d.shut ++ [d.nextW], nextW := d.nextW + 1 }
   else match d.pend with
@@ -215,8 +218,10 @@ def wstepG (fixed : Bool) (d : WDeb) : WAct → Option WDeb
   | .refreshDone => if d.f = .refreshing then some { d with f := .select, served := d.served ++ ls d.cur, cur := none } else none
   | .stop => some { d with stopped := true, quitClosed := true }
 
-def wstep : WDeb → WAct → Option WDeb := wstepG false
-def wstepFixed : WDeb → WAct → Option WDeb := wstepG true
+/-- the code that exists -/
+def wstep : WDeb → WAct → Option WDeb := wstepG true
+/-- the code before the fix commit (refreshNow does not look at `stopped`) -/
+def wstepOld : WDeb → WAct → Option WDeb := wstepG false
 
 def wrunG (fixed : Bool) : WDeb → List WAct → Option WDeb
   | s, [] => some s
@@ -224,7 +229,8 @@ def wrunG (fixed : Bool) : WDeb → List WAct → Option WDeb
     | some s' => wrunG fixed s' as
     | none => none
 
-def wrun : WDeb → List WAct → Option WDeb := wrunG false
+def wrun : WDeb → List WAct → Option WDeb := wrunG true
+def wrunOld : WDeb → List WAct → Option WDeb := wrunG false
 
 /-- the seeded family: the flusher returns straight from the quit case of its select (lock; timer.Stop(); unlock;
     return) without the `if d.stopped { broadcaster.stop() … }` block -/
@@ -248,6 +254,7 @@ end Pool
 func (p *policyConnPool) addHost(host *HostInfo) {
     hostID := host.HostID()
     p.mu.Lock()
+    if p.closed { p.mu.Unlock(); return }                                 // fix: commit for KF-C17-3
     pool, ok := p.hostConnPools[hostID]                                   // lookup
     if !ok { pool = newHostConnPool(p.session, host, host.Port(), …)      // create
              p.hostConnPools[hostID] = pool }                             // store
@@ -255,7 +262,8 @@ func (p *policyConnPool) addHost(host *HostInfo) {
     pool.fill() }
 func (p *policyConnPool) removeHost(hostID string) { p.mu.Lock(); pool, ok := …; if !ok { unlock; return }
     delete(p.hostConnPools, hostID); p.mu.Unlock(); go pool.Close() }
-func (p *policyConnPool) Close() { p.mu.Lock(); defer p.mu.Unlock(); for addr, pool := range … { delete; pool.Close() } }
+func (p *policyConnPool) Close() { p.mu.Lock(); defer p.mu.Unlock(); p.closed = true
+    for addr, pool := range … { delete; pool.Close() } }
 ```
 Any number of callers (UP event, ring refresh startPoolFill, reconnect ticker, controlConn.setupConn; DOWN event, ring
 refresh removeHost; Session.Close) at once. The mutex discipline of the code that exists is built into the state: `crit`
@@ -265,6 +273,7 @@ namespace Reg
 
 inductive Crit where
   | addIn                       -- addHost: took the mutex
+  | addRefused                  -- … found the pool map closed (policyConnPool.Close has run): unlock and return
   | addLooked (hit : Option Nat) -- … looked the host up
   | addCreated (i : Nat)        -- … missed and built pool i (newHostConnPool returned), not stored yet
   | addStored (i : Nat)         -- … stored it
@@ -277,6 +286,7 @@ deriving DecidableEq, Repr
 
 structure St where
   reg : Option Nat          -- hostConnPools[hostID]
+  closed : Bool             -- policyConnPool.closed (written and read under policyConnPool.mu only)
   pools : List Bool         -- closed flag of every hostConnPool object ever built for the host
   crit : Option Crit        -- the caller inside policyConnPool.mu (none: the mutex is free)
   addWait : Nat             -- addHost callers that have not taken the mutex yet
@@ -290,7 +300,7 @@ structure St where
 deriving DecidableEq, Repr
 
 def St.init (registered : Bool) : St :=
-  { reg := if registered then some 0 else none, pools := if registered then [false] else [], crit := none,
+  { reg := if registered then some 0 else none, closed := false, pools := if registered then [false] else [], crit := none,
     addWait := 0, rmWait := 0, clWait := 0, toFill := [], toClose := [], filled := [], missed := 0, made := [] }
 
 inductive Act where
@@ -315,7 +325,10 @@ def step (s : St) : Act → Option St
   | .callRemove => some { s with rmWait := s.rmWait + 1 }
   | .callClose => some { s with clWait := s.clWait + 1 }
   | .addLock => if s.crit = none ∧ 0 < s.addWait then some { s with crit := some .addIn, addWait := s.addWait - 1 } else none
-  | .addLookup => if s.crit = some .addIn then some { s with crit := some (.addLooked s.reg) } else none
+  | .addLookup =>
+      if s.crit = some .addIn then
+        if s.closed then some { s with crit := some .addRefused } else some { s with crit := some (.addLooked s.reg) }
+      else none
   | .addCreate =>
       if s.crit = some (.addLooked none) then some { s with crit := some (.addCreated s.pools.length), pools := s.pools ++ [false] }
       else none
@@ -323,6 +336,7 @@ def step (s : St) : Act → Option St
       | some (.addCreated i) => some { s with crit := some (.addStored i), reg := some i }
       | _ => none
   | .addUnlock => match s.crit with
+      | some .addRefused => some { s with crit := none }
       | some (.addLooked (some i)) => some { s with crit := none, toFill := s.toFill ++ [i] }
       | some (.addStored i) => some { s with crit := none, toFill := s.toFill ++ [i] }
       | _ => none
@@ -343,8 +357,8 @@ def step (s : St) : Act → Option St
   | .clSweep =>
       if s.crit = some .clIn then
         match s.reg with
-        | none => some { s with crit := some .clDone }
-        | some i => some { s with crit := some .clDone, reg := none, pools := setClosed s.pools i }
+        | none => some { s with crit := some .clDone, closed := true }
+        | some i => some { s with crit := some .clDone, closed := true, reg := none, pools := setClosed s.pools i }
       else none
   | .clUnlock => if s.crit = some .clDone then some { s with crit := none } else none
   | .sLookup => none
